@@ -12,5 +12,6 @@ MCTablesQ == {TS(1)}
 MCBytes == {65, 84, 67, 63, 10}
 MCCodes == {RET_DATA_OK, RET_DATA_NEXT, RET_OK, RET_ERROR}
 MCTrigs == {<<1, CT_READ>>, <<2, CT_READ>>, <<1, CT_TEST>>}
+MCNested == {<<1, CT_READ>>}
 MCCodesLive == {RET_DATA_OK, RET_OK, RET_ERROR}
 =============================================================================
